@@ -28,6 +28,7 @@ def plan(tier):
             "required_classes": ["I:raw", "I:normalised", "I:real-state-complex-H", "T:thermal-prop", "T:exact", "P:exact-propagator", "X:evolve_exact",
                                  "space:GS", "space:EX", "offset!=0", "family:pc", "family:ps", "family:vmf", "family:cmf", "modes:repeated-frequency", "T:exact-nonidentity-input", "X:mpdm-noncommuting-input",
                                  "P:reference-tied-to-model-hamiltonian", "T:h_mpo_model-differs-from-the-model-of-the-state",
+                                 "T:complex-hermitian-couplings", "tree:electronic-node-with-two-or-more-children",
                                  "tree", "tree-scheme:prop_and_compress_tdrk4", "tree-scheme:tdvp_ps2"],
             "required_counters": {"oracle": 600, "ratios_measured": 40, "tree_thermal_runs": 20}}
     if tier == "quick":
@@ -155,12 +156,12 @@ def case_imag(ctx):
 
 
 # ----------------------------------------------------------------------------------------- Holstein models
-def holstein(ctx, max_dim=1500, allow_complex_j=True):
+def holstein(ctx, max_dim=1500, allow_complex_j=True, force_complex_j=False):
     from renormalizer.model import HolsteinModel, Mol, Phonon
     from renormalizer.utils import Quantity
     rng = ctx.rng
     for _ in range(50):
-        nmol = int(rng.integers(1, 4))
+        nmol = int(rng.integers(2 if force_complex_j else 1, 4))
         mols = []
         dim = 1
         seen, degenerate = [], False
@@ -186,7 +187,7 @@ def holstein(ctx, max_dim=1500, allow_complex_j=True):
             continue
         j = rng.uniform(-0.5, 0.5, size=(nmol, nmol))
         j = (j + j.T) / 2
-        if allow_complex_j and nmol >= 2 and rng.random() < 0.3:
+        if allow_complex_j and nmol >= 2 and (force_complex_j or rng.random() < 0.3):
             # complex Hermitian couplings (Peierls phases): the purified states become genuinely complex
             ph = rng.uniform(-np.pi, np.pi, size=(nmol, nmol))
             ph = np.triu(ph, 1)
@@ -338,10 +339,14 @@ def case_thermal(ctx):
     from renormalizer.mps.thermalprop import ThermalProp
     from renormalizer.utils import EvolveConfig, EvolveMethod, CompressConfig, CompressCriteria
     rng = ctx.rng
-    model, desc = holstein(ctx, max_dim=400)
-    nexc = int(rng.integers(0, 2))
+    # every third thermal case: complex Hermitian couplings in the one-exciton space (complex purified states)
+    forced = (ctx.idx // 6) % 3 == 1
+    model, desc = holstein(ctx, max_dim=400, force_complex_j=forced)
+    nexc = 1 if forced else int(rng.integers(0, 2))
     space = "EX" if nexc else "GS"
     ctx.cls("T:thermal-prop", "space:" + space, f"scheme:{model.scheme}")
+    if np.iscomplexobj(model.j_matrix) and nexc:
+        ctx.cls("T:complex-hermitian-couplings")
     beta = float(10 ** rng.uniform(-1, 1)) / 2.0
     e_ref, eocc_ref, pocc_ref, hn = gibbs_refs(model, nexc, beta)
     beta = min(beta, 6.0 / hn)          # keep exp(-beta H) well conditioned
